@@ -297,6 +297,26 @@ def history_walks(via, tier):
     return ws
 
 
+def pair_walks(via):
+    """'Requests with other codes do not release it', code pair by code pair: two waiters parked on c (every table code), then
+    requests with every other code d - all of 0..255 in the direct binding, all of 0..39 plus 64, 200, 255 through ServeAgent -
+    in groups of 8 (one connection each, or one pipelined / fragmented stream), nobody may be released; then c itself."""
+    ws = []
+    for c in range(TABLE):
+        others = [d for d in (range(256) if not via else list(range(TABLE)) + [64, 200, 255]) if d != c]
+        # neighbours and "related" codes first: c^1, c+-1, c+-8, c+-9, constrained/plain pairs (25/17, 26/20), request/answer pairs
+        rel = [d for d in (c ^ 1, c + 1, c - 1, c + 8, c - 8, c + 9, c - 9, {17: 25, 25: 17, 20: 26, 26: 20, 11: 12, 12: 11, 13: 14, 14: 13}.get(c, -1))
+               if 0 <= d < 256 and d != c]
+        order = list(dict.fromkeys(rel + others))
+        st = [{"op": "reg", "ws": ["w1", "w2"], "wc": [c, c], "cs": []}]
+        for i in range(0, len(order), 8):
+            g = order[i:i + 8]
+            st.append({"op": "request", "ws": [], "wc": [], "cs": g, "dl": ["single", "pipelined", "fragmented"][(i // 8) % 3]})
+        st.append({"op": "request", "ws": [], "wc": [], "cs": [c]})
+        ws.append({"id": "p%d" % c, "steps": st})
+    return ws
+
+
 def random_walks(via, n, rnd, maxlen):
     """Direction B: random schedules, up to 8 concurrently parked waiters on the same and on different codes, batches of
     registrations, batches of requests on several connections, registrations racing with requests."""
@@ -558,6 +578,7 @@ def run(prop, tier):
     for via in (False, True):
         plans[via] += code_walks(via)
         plans[via] += history_walks(via, tier)
+        plans[via] += pair_walks(via)
         plans[via] += random_walks(via, nrand, rnd, 12 if tier == "quick" else 24)
         rnd.shuffle(plans[via])
     log("[plan] %d tours (%d LTS edges not planned), %d orderings, 2x256 code walks, 2x%d random schedules" % (len(tw), left, nord, nrand))
